@@ -199,3 +199,46 @@ def run_sequence(ctx, seed: int, n_ops: int, fails: list, counts: dict):
             else:
                 os.environ[k] = v
         shutil.rmtree(root, ignore_errors=True)
+
+
+def run_scripted(ctx, fails: list, counts: dict):
+    """fixed sequences aimed at state kept on a Snapshot object between calls: a snapshot with one replicated and one
+    private stateful; a replicated leaf is read under the index of a rank that did not exist at save time; then the same
+    Snapshot object restores, and answers get_state_dict_for_key, for rank 0."""
+    import torch
+    from lib.world import safe_gc
+    from torchsnapshot import Snapshot, StateDict
+    root = ctx.scratch("seqs")
+    try:
+        with safe_gc():
+            for use_async in (False, True):
+                path = os.path.join(root, "a" if use_async else "s")
+                mk = lambda: {"model": StateDict(w=torch.arange(6.).reshape(2, 3), b=torch.ones(2)),
+                              "progress": StateDict(step=17, name="run-a", stats=collections.OrderedDict(loss=torch.tensor([0.5]), seen=3),
+                                                    history=[1, {"lr": 0.1}])}
+                state = mk()
+                snap = (Snapshot.async_take(path, state, replicated=["model/**"]).wait() if use_async
+                        else Snapshot.take(path, state, replicated=["model/**"]))
+                counts["scripted"] = counts.get("scripted", 0) + 1
+                for first in ("1/model/w", "3/model/b"):
+                    got = snap.read_object(first)
+                    if sg.equal_exact(got, mk()["model"][first.split("/")[-1]], first):
+                        fails.append(("seq:scripted:new-rank-read-differs", f"read_object({first!r}) of a replicated entry differs"))
+                    tgt = {"model": StateDict(w=torch.zeros(2, 3), b=torch.zeros(2)), "progress": StateDict()}
+                    snap.restore(tgt)
+                    for k, exp in mk().items():
+                        d = None
+                        if list(tgt[k].data.keys()) != list(exp.data.keys()):
+                            d = f"{k}: keys {list(tgt[k].data.keys())!r} vs {list(exp.data.keys())!r}"
+                        else:
+                            for kk in exp.data:
+                                d = d or sg.equal_exact(tgt[k].data[kk], exp.data[kk], f"{k}/{kk}")
+                        if d:
+                            fails.append(("seq:scripted:restore-after-new-rank-read-differs",
+                                          f"restore() through the Snapshot object that had served read_object({first!r}) ({'async_take' if use_async else 'take'}): {d}"))
+                            break
+                    sd = snap.get_state_dict_for_key("progress")
+                    if list(sd.keys()) != ["step", "name", "stats", "history"]:
+                        fails.append(("seq:scripted:get_state_dict_for_key-after-new-rank-read-differs", f"get_state_dict_for_key('progress') keys {list(sd.keys())!r}"))
+    finally:
+        shutil.rmtree(root, ignore_errors=True)
